@@ -11,7 +11,7 @@ CLAIMED = {
  "C05": ("crash points at every file-system mutating call of klevdb inside publish (with rollover), delete (every structural outcome), eager migration and Recover itself, torn appends with a symbolic prefix length, followed by the real Open(Recover): recovered content, agreement of all views, NextOffset, idempotence of Recover, append + Check; counterexamples are replayed natively on an instrumented build that dies at the same call", "§4 C05"),
  "C06": ("the same crash points under the tail-loss model: at the crash every file is cut to a symbolic length between its last fsynced length and its current length; everything acknowledged by Sync / AutoSync / Close survives Open(Recover)", "§4 C06"),
  "C07": ("Segment.Check / Segment.Recover on a head segment of valid records cut at a symbolic length, with one symbolic byte changed in any field, and with a truncated / changed / extended index; all four index configurations", "§4 C07"),
- "C08": ("PARTIAL: every pair of concurrent calls with at least one Publish or Delete (plus the read/read pairs that race on the lazy index rebuild) on small directories through the real Open, under a schedule variable with bounded preemptions at mutex/atomic/channel/file-system operations: both calls succeed, results are those of a sequential order, publishers get disjoint consecutive offsets, tailing readers see no gap; thorough adds appends that become visible in two steps. Data-race freedom (lockset), more than two concurrent calls and free-running mixes are NOT decided", "§4 C08, §10.6"),
+ "C08": ("PARTIAL: every pair of concurrent calls with at least one Publish or Delete (plus the read/read pairs that race on the lazy index rebuild) on small directories through the real Open, under a schedule variable with bounded preemptions at mutex/atomic/channel/file-system operations: both calls succeed, results are those of a sequential order, publishers get disjoint consecutive offsets, tailing readers see no gap; quick bound only (no thorough_cmd: the deeper configuration does not finish in 25 minutes). Data-race freedom (lockset), more than two concurrent calls and free-running mixes are NOT decided", "§4 C08, §10.6"),
  "C09": ("GetByKey / OffsetByKey / ConsumeByKey on arbitrary well-formed directories with FNV as an uninterpreted function (free collisions), present and rebuilt indexes", "§4 C09"),
  "C10": ("index.Time for all arrays within the bound, and GetByTime / OffsetByTime on arbitrary well-formed directories with non-decreasing times (equal runs across segment boundaries, empty head, rebuilt indexes)", "§4 C10"),
  "C11": ("after every step harness the reference decoder checks every segment's index file against the index derived from its log file; reopen with every removal pattern of index files, read-write and read-only, all four index configurations", "§4 C11"),
@@ -26,6 +26,10 @@ CLAIMED = {
  "C20": ("Log.Backup and Backup(src,dst) into an empty directory and repeated after publish-only steps (with rollover), symbolic mtimes; backup passes Check and opens to the same log; source unchanged", "§4 C20"),
 }
 
+# properties whose thorough command ran clean (exit 0) on the unchanged tree within its budget;
+# for the others no thorough_cmd is registered (absent => quick only)
+THOROUGH_OK = set(open(os.path.join(here, "tools", "thorough_validated.txt")).read().split())
+
 NOT_YET = "check not built yet in this session; to be replaced by a claim or by a final reason"
 NA = {}
 
@@ -36,10 +40,11 @@ def main():
         if pid not in CLAIMED:
             continue
         note, ref = CLAIMED[pid]
+        entry_thorough = {"thorough_cmd": f"./check {pid} thorough"} if pid in THOROUGH_OK else {}
         checks.append({
             "property_id": pid,
             "quick_cmd": f"./check {pid} quick",
-            "thorough_cmd": f"./check {pid} thorough",
+            **entry_thorough,
             "evidence_file": f"/verif/evidence/{pid}.json",
             "replay_cmd_template": "./bin/gosym replay {path}",
             "engine": "gosym",
@@ -48,7 +53,7 @@ def main():
                 "text": "Bounded symbolic execution of the real go/ssa code of /repo's working tree: every assertion of the harnesses (and every implicit run-time check) is decided by z3 for all inputs within the stated bounds; a sat answer is replayed natively before it is reported. Not a proof beyond the bounds. Scope: " + note,
                 "design_ref": "DESIGN.md " + ref,
             },
-            "level_note": "trusted base: the gosym SSA->SMT-LIB encoder (checked on every run by replaying solver models of reach labels natively), z3 4.8.12, the environment models named under stubs_used in the evidence (file system by its documented contract, CRC32C/FNV as uninterpreted functions, clock, flock); bounds in coverage.harnesses[*].bounds",
+            "level_note": "trusted base: the gosym SSA->SMT-LIB encoder (checked on every run by replaying solver models of reach labels natively), z3 5.1.0 (the pre-installed z3-new CLI; /usr/bin/z3 4.8.12 and cvc5 selectable with the bound `solver` for cross-checks), the environment models named under stubs_used in the evidence (file system by its documented contract, CRC32C/FNV as uninterpreted functions, clock, flock); bounds in coverage.harnesses[*].bounds",
             "technique": ("symbolic execution of go/ssa + SMT (z3, QF_BV+UF) with the schedule as a case-split variable, bounded; schedule counterexamples re-executed concretely on the SSA" if pid in ("C08", "C18") else "symbolic execution of go/ssa + SMT (z3, QF_BV+UF), bounded; native replay of models"),
         })
     na = [{"property_id": p, "reason": NA.get(p, NOT_YET)} for p in props if p not in CLAIMED]
